@@ -190,7 +190,10 @@ class UnboundStepwise(object):
         :note: The partial rules are sealed, and :py:meth:`~.UnboundStepwise.add`
                cannot be called on it.
         """
-        return Partial(Stepwise, self.base, *self.rules, *args, __leaf__=True, **kwargs)
+        # a Stepwise is a Controller and awaits its target: it is not a leaf
+        return Partial(
+            Stepwise, self.base, *self.rules, *args, __leaf__=False, **kwargs
+        )
 
     def __call__(self, target: Pool, interval: float = None):
         if interval is None:
